@@ -446,6 +446,7 @@ func genLifecycle(r *Rng, idx int, tier string, step func(op string) string) {
 	var peers []*scriptPeer
 	nextK := 1
 	gates := map[string]bool{}
+	dialed := false
 	status := func(o string) string { return obsKV(o)["st"] }
 	last := o
 	do := func(op string) string {
@@ -483,6 +484,26 @@ func genLifecycle(r *Rng, idx int, tier string, step func(op string) string) {
 		st := status(last)
 		roll := r.Intn(100)
 		switch {
+		case dialHold && !dialed && st == "Downloading" && r.Chance(40):
+			dialed = true
+			// (with a connected peer: closing it at the stop makes room for another dial)
+			hasLive := false
+			for _, p := range peers {
+				if !p.closed {
+					hasLive = true
+				}
+			}
+			if !hasLive && nextK <= 8 {
+				attach()
+			}
+			do(fmt.Sprintf("dialhold n=%d", r.Range(2, 3)))
+			if r.Chance(70) {
+				do("stop")
+				if ntrk > 0 {
+					do("waitstop")
+				}
+				do("obs")
+			}
 		case roll < 22:
 			do("start")
 		case roll < 40:
@@ -510,25 +531,6 @@ func genLifecycle(r *Rng, idx int, tier string, step func(op string) string) {
 			do("verify")
 			if ntrk > 0 {
 				do("waitstop")
-			}
-		case roll < 56 && dialHold && st == "Downloading":
-			// (with a connected peer, if there is none yet: closing it at the stop makes room for another dial)
-			hasLive := false
-			for _, p := range peers {
-				if !p.closed {
-					hasLive = true
-				}
-			}
-			if !hasLive && nextK <= 8 {
-				attach()
-			}
-			do(fmt.Sprintf("dialhold n=%d", r.Range(2, 3)))
-			if r.Chance(70) {
-				do("stop")
-				if ntrk > 0 {
-					do("waitstop")
-				}
-				do("obs")
 			}
 		case roll < 53 && ntrk > 0 && ntrk < 4 && (st == "Stopped" || st == "Downloading" || st == "Seeding"):
 			do("addtracker")
